@@ -11,6 +11,7 @@
 #include <engine/verif.h>
 #include <kits/chainsim.h>
 
+#include <arith_uint256.h>
 #include <coins.h>
 #include <policy/policy.h>
 #include <script/interpreter.h>
@@ -34,7 +35,7 @@ namespace {
 // function-local static: constructed at run time, hence destroyed BEFORE the globals (gArgs) its destructor uses
 void init13() { static const auto setup = MakeNoLogFileContext<const BasicTestingSetup>(ChainType::REGTEST); (void)setup; }
 
-enum class CoinKind { P2PKH, P2WPKH, WSH_MULTISIG, P2TR, BARE_CLTV, P2SH_P2WPKH, BARE_MULTISIG1, BARE_CSV, P2PK, WSH_TRUE, KINDS };
+enum class CoinKind { P2PKH, BARE_MSIG_SIB, P2WPKH, WSH_MULTISIG, P2TR, P2SH_MSIG_SIB, BARE_CLTV, P2SH_P2WPKH, BARE_MULTISIG1, BARE_CSV, P2PK, WSH_TRUE, KINDS };
 
 struct WorldCoin {
     COutPoint op;
@@ -43,14 +44,34 @@ struct WorldCoin {
     size_t key{0}, key2{0};
     CScript witness_script; //!< for WSH kinds
     int64_t lock{0};        //!< CLTV height / CSV blocks
+    // *_MSIG_SIB: legacy 2-of-2 over two 65-byte public keys that share prefix byte and X and differ in Y
+    CKey good_key;                 //!< uncompressed
+    std::optional<CKey> sib_key;   //!< present if the sibling is the negated point (a real key), absent if it is an off-curve / wrong-parity encoding
+    bool good_last{true};          //!< script is <sibling> <good> (CHECKMULTISIG tries the LAST key first)
 };
+
+/** n - d for the secp256k1 group order n: the key whose public point is (X, p - Y) */
+CKey NegatedKey(const CKey& k)
+{
+    static const arith_uint256 order = UintToArith256(uint256::FromHex("fffffffffffffffffffffffffffffffebaaedce6af48a03bbfd25e8cd0364141").value());
+    std::vector<unsigned char> be(reinterpret_cast<const unsigned char*>(k.begin()), reinterpret_cast<const unsigned char*>(k.end()));
+    std::vector<unsigned char> le(be.rbegin(), be.rend());
+    const arith_uint256 d = UintToArith256(uint256(std::span<const unsigned char>(le)));
+    const uint256 r = ArithToUint256(order - d);
+    std::vector<unsigned char> rbe(r.begin(), r.end());
+    std::reverse(rbe.begin(), rbe.end());
+    CKey out;
+    out.Set(rbe.begin(), rbe.end(), /*fCompressedIn=*/false);
+    return out;
+}
 
 const char* KindName(CoinKind k)
 {
     switch (k) {
     case CoinKind::P2PKH: return "p2pkh"; case CoinKind::P2WPKH: return "p2wpkh"; case CoinKind::P2SH_P2WPKH: return "p2sh-p2wpkh"; case CoinKind::P2TR: return "p2tr";
     case CoinKind::P2PK: return "p2pk"; case CoinKind::BARE_CLTV: return "cltv"; case CoinKind::BARE_CSV: return "csv"; case CoinKind::WSH_MULTISIG: return "wsh-2of2";
-    case CoinKind::BARE_MULTISIG1: return "bare-1of1"; case CoinKind::WSH_TRUE: return "wsh-true"; default: return "?";
+    case CoinKind::BARE_MULTISIG1: return "bare-1of1"; case CoinKind::WSH_TRUE: return "wsh-true"; case CoinKind::BARE_MSIG_SIB: return "bare-2of2-sibling-keys";
+    case CoinKind::P2SH_MSIG_SIB: return "p2sh-2of2-sibling-keys"; default: return "?";
     }
 }
 
@@ -101,7 +122,7 @@ script_verify_flags FixFlags(script_verify_flags f)
 } // namespace
 
 VERIF_TARGET(c13_checkinputs, init13, 200, 2400,
-             "a world of 5-9 coins (P2PKH, P2WPKH, P2SH-P2WPKH, P2TR key path, P2PK, bare CLTV/CSV anyone-can-spend, P2WSH 2-of-2 multisig, bare 1-of-1 multisig, P2WSH OP_TRUE) and "
+             "a world of 6-10 coins (legacy bare/P2SH 2-of-2 multisig over two 65-byte keys with equal prefix and X [04 or hybrid 06/07; sibling = negated point or off-curve Y] spent with one signature twice, P2PKH, P2WPKH, P2SH-P2WPKH, P2TR key path, P2PK, bare CLTV/CSV anyone-can-spend, P2WSH 2-of-2 multisig, bare 1-of-1 multisig, P2WSH OP_TRUE) and "
              "3-5 base transactions spending 1-3 of them, each with defect variants (corrupted signature = witness twin for segwit inputs, lax-DER signature, undefined hash type, "
              "unsatisfied CLTV/CSV, non-null multisig dummy, repeated multisig signature, extra scriptSig push / NOP, extra witness item); 40-160 CheckInputScripts calls on ONE "
              "ValidationCache (0, 4 KiB or 64 KiB per cache) with flag sets drawn from a per-case palette (none, P2SH, P2SH|WITNESS, consensus, standard, random) +- one flag, random "
@@ -113,7 +134,7 @@ VERIF_TARGET(c13_checkinputs, init13, 200, 2400,
     // ---------------- coin world
     CCoinsViewCache view(&CoinsViewEmpty::Get());
     std::vector<WorldCoin> world;
-    const unsigned ncoins = s.range<unsigned>(5, 9);
+    const unsigned ncoins = s.range<unsigned>(6, 10);
     for (unsigned i = 0; i < ncoins; ++i) {
         WorldCoin c;
         c.kind = CoinKind(i < unsigned(CoinKind::KINDS) && s.chance(150) ? i : s.range<unsigned>(0, unsigned(CoinKind::KINDS) - 1));
@@ -133,6 +154,36 @@ VERIF_TARGET(c13_checkinputs, init13, 200, 2400,
             spk = GetScriptForDestination(WitnessV0ScriptHash(c.witness_script));
             break;
         case CoinKind::BARE_MULTISIG1: spk = CScript() << OP_1 << ToByteVector(keys.keys[c.key].GetPubKey()) << OP_1 << OP_CHECKMULTISIG; break;
+        case CoinKind::BARE_MSIG_SIB:
+        case CoinKind::P2SH_MSIG_SIB: {
+            c.good_key.Set(keys.keys[c.key].begin(), keys.keys[c.key].end(), /*fCompressedIn=*/false);
+            const CPubKey good_pk = c.good_key.GetPubKey();
+            std::vector<unsigned char> good(good_pk.begin(), good_pk.end()), sib;
+            const unsigned form = s.range<unsigned>(0, 3);
+            if (form == 0) { // sibling = the negated point: same prefix 04, same X, Y' = p - Y; a real key (n - d)
+                c.sib_key = NegatedKey(c.good_key);
+                const CPubKey sp = c.sib_key->GetPubKey();
+                sib.assign(sp.begin(), sp.end());
+                VCHECK(sib.size() == 65 && good.size() == 65 && std::equal(sib.begin(), sib.begin() + 33, good.begin()) && sib != good, "c13.harness", "negated key is not a sibling encoding");
+                st.cls("sibling-key:negated-point");
+            } else if (form == 1) { // off-curve Y
+                sib = good; sib[64] ^= 0x01;
+                st.cls("sibling-key:off-curve");
+            } else if (form == 2) { // hybrid encodings: both carry the parity prefix of the good key; the sibling has another Y (wrong parity / off curve)
+                good[0] = uint8_t(6 | (good[64] & 1));
+                sib = good; sib[64] ^= uint8_t(s.pick<unsigned>({1, 2, 0x80}));
+                st.cls("sibling-key:hybrid");
+            } else { // arbitrary other Y
+                sib = good; sib[40] ^= 0x5a;
+                st.cls("sibling-key:off-curve");
+            }
+            c.good_last = !s.chance(64);
+            c.witness_script = CScript() << OP_2;
+            if (c.good_last) c.witness_script << sib << good; else c.witness_script << good << sib;
+            c.witness_script << OP_2 << OP_CHECKMULTISIG;
+            spk = c.kind == CoinKind::BARE_MSIG_SIB ? c.witness_script : GetScriptForDestination(ScriptHash(c.witness_script));
+            break;
+        }
         default: c.kind = CoinKind::WSH_TRUE; spk = keys.Script(SpkType::ANYONE_P2WSH); break;
         }
         c.out = CTxOut(CAmount(100000 + 1000 * i), spk);
@@ -176,6 +227,17 @@ VERIF_TARGET(c13_checkinputs, init13, 200, 2400,
                     keys.keys[c.key2].Sign(h, s2); s2.push_back(SIGHASH_ALL);
                     tx.vin[i].scriptWitness.stack = {nonnull_dummy ? std::vector<unsigned char>{0x01} : std::vector<unsigned char>{}, s1, repeat_sig ? s1 : s2,
                                                      std::vector<unsigned char>(c.witness_script.begin(), c.witness_script.end())};
+                } else if (c.kind == CoinKind::BARE_MSIG_SIB || c.kind == CoinKind::P2SH_MSIG_SIB) {
+                    // scriptCode = the multisig script; one genuine signature of the good key, and (if the sibling is a real key and no defect is wanted) one of the sibling
+                    std::vector<unsigned char> sg, ss;
+                    const uint256 h = SignatureHash(c.witness_script, tx, unsigned(i), SIGHASH_ALL, c.out.nValue, SigVersion::BASE);
+                    c.good_key.Sign(h, sg); sg.push_back(SIGHASH_ALL);
+                    const bool same_sig_twice = repeat_sig || !c.sib_key;
+                    if (same_sig_twice) ss = sg; else { c.sib_key->Sign(h, ss); ss.push_back(SIGHASH_ALL); }
+                    tx.vin[i].scriptSig = CScript();
+                    if (nonnull_dummy) tx.vin[i].scriptSig << OP_1; else tx.vin[i].scriptSig << OP_0;
+                    if (c.good_last) tx.vin[i].scriptSig << ss << sg; else tx.vin[i].scriptSig << sg << ss;
+                    if (c.kind == CoinKind::P2SH_MSIG_SIB) tx.vin[i].scriptSig << std::vector<unsigned char>(c.witness_script.begin(), c.witness_script.end());
                 } else if (c.kind == CoinKind::BARE_MULTISIG1) {
                     std::vector<unsigned char> s1;
                     const uint256 h = SignatureHash(c.out.scriptPubKey, tx, unsigned(i), SIGHASH_ALL, c.out.nValue, SigVersion::BASE);
@@ -195,6 +257,7 @@ VERIF_TARGET(c13_checkinputs, init13, 200, 2400,
             spent_of[v.tx->GetHash()] = spent_outs;
             txs.push_back(v);
         };
+        for (size_t j : picks) if ((world[j].kind == CoinKind::BARE_MSIG_SIB || world[j].kind == CoinKind::P2SH_MSIG_SIB)) st.cls(world[j].sib_key ? "tx:sibling-keys-two-signatures" : "tx:same-sig-vs-sibling-keys");
         std::string kinds;
         for (size_t j : picks) { kinds += KindName(world[j].kind); kinds += ","; }
         add(m, strprintf("base%d[%s%s%s]", b, kinds, satisfy_locks ? "" : "locks-unsatisfied,", hashtype == 4 ? "hashtype4" : ""));
@@ -231,7 +294,8 @@ VERIF_TARGET(c13_checkinputs, init13, 200, 2400,
                 if (done) t.vin[i].scriptSig = out;
                 return done;
             };
-            const bool is_msig = c.kind == CoinKind::WSH_MULTISIG || c.kind == CoinKind::BARE_MULTISIG1;
+            const bool is_sib = c.kind == CoinKind::BARE_MSIG_SIB || c.kind == CoinKind::P2SH_MSIG_SIB;
+            const bool is_msig = c.kind == CoinKind::WSH_MULTISIG || c.kind == CoinKind::BARE_MULTISIG1 || is_sib;
             if (defect == 0 || (defect == 5 && !is_msig)) { // corrupted signature
                 dn = "bad-sig";
                 if (auto* sg = first_sig()) { if (sg->size() > 12) (*sg)[10] ^= 0x01; else dn.clear(); }
@@ -242,8 +306,8 @@ VERIF_TARGET(c13_checkinputs, init13, 200, 2400,
                 else if (auto* sg = first_sig()) { if (!MakeLaxDer(*sg)) dn.clear(); }
                 else if (!edit_scriptsig_sig([](std::vector<unsigned char>& d) { return MakeLaxDer(d); })) dn.clear();
             } else if (defect == 2 || defect == 5) { // multisig: repeated signature / non-null dummy; others: extra scriptSig element
-                if (c.kind == CoinKind::WSH_MULTISIG || c.kind == CoinKind::BARE_MULTISIG1) {
-                    const bool rep = c.kind == CoinKind::WSH_MULTISIG && s.boolean();
+                if (is_msig) {
+                    const bool rep = is_sib ? !s.chance(48) : (c.kind == CoinKind::WSH_MULTISIG && s.boolean());
                     dn = rep ? "multisig-repeated-sig" : "multisig-nonnull-dummy";
                     // only touch input i: re-sign everything manually with the defect, then restore the other manual inputs
                     CMutableTransaction t2(t);
@@ -269,6 +333,7 @@ VERIF_TARGET(c13_checkinputs, init13, 200, 2400,
             if (dn.empty()) continue;
             // a legacy edit changes the txid; the bare-multisig / legacy signatures stay valid (scriptSigs are not signed) but witness-v0/taproot signatures of OTHER
             // inputs stay valid too (they do not commit to scriptSigs) -- nothing to re-sign.
+            if (is_sib && dn == "multisig-repeated-sig") st.cls("tx:same-sig-vs-sibling-keys");
             add(t, strprintf("base%d/%s@%d(%s)", b, dn, i, KindName(c.kind)));
             st.cls("variant:" + dn);
         }
